@@ -467,6 +467,7 @@ where
             (
                 this.flags.contains(Flags::DRAINING),
                 !is_upgrade
+                    && this.messages.is_empty()
                     && should_close_for_unread_payload(
                         this.payload.as_ref(),
                         *this.payload_drainable,
@@ -517,6 +518,7 @@ where
             (
                 this.flags.contains(Flags::DRAINING),
                 !is_upgrade
+                    && this.messages.is_empty()
                     && should_close_for_unread_payload(
                         this.payload.as_ref(),
                         *this.payload_drainable,
@@ -584,6 +586,9 @@ where
                 StateProj::None => match this.messages.pop_front() {
                     // handle request message
                     Some(DispatcherMessage::Item(req)) => {
+                        let ctx = this.codec.request_context(req.head());
+                        this.codec.set_request_context(ctx);
+
                         // Handle `EXPECT: 100-Continue` header
                         if req.head().expect() {
                             // set InnerDispatcher state and continue loop to poll it
@@ -894,6 +899,9 @@ where
 
         // decode from read buf as many full requests as possible
         loop {
+            // the response in flight must keep the context of its own request
+            let ctx_in_flight = this.codec.current_context();
+
             match this.codec.decode(this.read_buf) {
                 Ok(Some(msg)) => {
                     updated = true;
@@ -939,6 +947,7 @@ where
                                 self.as_mut().handle_request(req, cx)?;
                                 this = self.as_mut().project();
                             } else {
+                                this.codec.set_request_context(ctx_in_flight);
                                 this.messages.push_back(DispatcherMessage::Item(req));
                             }
                         }
